@@ -16,6 +16,7 @@ pub mod c12;
 pub mod c13;
 pub mod c14;
 pub mod c15;
+pub mod c17;
 
 pub fn bind_or_die() {
     let r = crate::bind::run();
@@ -80,6 +81,7 @@ pub fn replay(id: &str, v: &Value) -> i32 {
         "C13" => c13::replay,
         "C14" => c14::replay,
         "C15" => c15::replay,
+        "C17" => c17::replay,
         _ => {
             eprintln!("no replay for {}", id);
             return 2;
